@@ -34,6 +34,12 @@ impl Builder {
             return Err(Error::EmptySamplesMap);
         }
 
+        // A sample listed under several populations is only kept in the last one, which can leave
+        // an earlier population without any samples
+        if sample_map.population_sizes().len() != sample_map.population_ids().count() {
+            return Err(Error::ConflictingSamples);
+        }
+
         // All samples in sample map should be in reader samples
         let reader_samples = HashSet::<_>::from_iter(reader.samples());
         if let Some(unknown_sample) = sample_map
@@ -126,6 +132,8 @@ impl Project {
 /// An error associated with building a site reader.
 #[derive(Debug)]
 pub enum Error {
+    /// Provided sample mapping assigns a sample to more than one population.
+    ConflictingSamples,
     /// Provided sample mappping is empty.
     EmptySamplesMap,
     /// I/O error.
@@ -159,6 +167,9 @@ impl From<ProjectionError> for Error {
 impl fmt::Display for Error {
     fn fmt(&self, f: &mut fmt::Formatter<'_>) -> fmt::Result {
         match self {
+            Error::ConflictingSamples => {
+                f.write_str("sample assigned to more than one population in samples mapping")
+            }
             Error::EmptySamplesMap => f.write_str("empty samples mapping"),
             Error::Io(e) => write!(f, "{e}"),
             Error::PathDoesNotExist { path } => {
